@@ -22,7 +22,7 @@ import (
 
 const (
 	property = "C01"
-	rule     = "random DB programs (Put/Delete/batch incl. oversized/Get/Has/scan/snapshots/CompactRange/reopen/transactions) x option lattice x 4 comparers; after every 8th write and at checkpoints Get/Has of every pool key + 4 absent keys and a full scan are compared with a Go map; non-trivial = the run installed >=1 table compaction and populated >=2 levels"
+	rule     = "random DB programs (Put/Delete/batch incl. oversized/Get/Has/scan/snapshots/CompactRange/reopen/transactions) x option lattice x 5 comparers (4 injective ones; every fifth program runs under the non-injective ASCII-case-insensitive comparer with several spellings per user key in the pool, the oracle keyed by equivalence class, iterators expected to show the spelling of the newest visible Put, bloom filter off); after every 8th write and at checkpoints Get/Has of every pool key + 4 absent keys and a full scan are compared with a Go map; non-trivial = the run installed >=1 table compaction and populated >=2 levels"
 	header   = "From GL Require Import Corr.C01Run."
 
 	quickProgs, quickOps = 560, 300
@@ -179,7 +179,19 @@ func main() {
 				r := j.r
 				cfg := dbh.RandomCfg(r)
 				pool := dbh.GenPool(r, r.Range(8, 60), r.Chance(1, 8))
+				if dbh.ClassJob(j.i) {
+					// one program in five runs under the NON-INJECTIVE comparer (id 4, ASCII case-insensitive): the
+					// pool holds several spellings per user key, the oracle is keyed by equivalence class
+					dbh.UseClassCmp(&cfg)
+					pool = dbh.SpellPool(r, pool)
+				}
 				p := dbh.GenProgram(r, cfg, pool, r.Range(nops/3, nops), weights)
+				if dbh.ClassJob(j.i) {
+					res.Count("programs_casefold_comparer", 1)
+					cl, multi := dbh.ClassStats(cfg.Options().Comparer, p.Pool)
+					res.Count("casefold_classes", cl)
+					res.Count("casefold_classes_with_several_spellings", multi)
+				}
 				p.Seed = a.Seed
 				collect := j.i%2 == 0
 				var kr, kb *vlib.RNG
